@@ -20,6 +20,10 @@ CLAIMS = {
             "Decides, for every failure position, that memory/watchers never observe a write the backing store rejected and that an acknowledged "
             "write went through one bbolt Update transaction first; that loading is gated and flagged only on success. "
             "bbolt's own crash atomicity and reload equality are trusted / not decided.", "§3 C10"),
+    "C19": ("value provenance (fresh-copy) analysis on go/ssa + copy-on-write path-cut + who-may-write for raw maps",
+            "Decides that nothing but DeepCopy results enters or leaves the store and the read cache, that every in-place write of the "
+            "copy-on-write metadata containers targets storage created in the same call, that the module's DeepCopy implementations copy "
+            "their mutable parts, and that raw maps are never written. DeepCopy of user spec types is the user's obligation.", "§3 C19"),
     "C07": ("path-cut (must-precede) analysis on go/ssa control-flow graphs",
             "Decides, for every path of every generic controller's reconcile code, the write-order clauses of the property "
             "(finalizer before output, destroy only when ready/empty, finalizer released only after destroy/handler success) "
